@@ -109,15 +109,15 @@ Definition b_calc_in_given_out (p : bpool) (i j : nat) (o fee : Z) : res Z :=
   let in_int := Z.quot c P18 in
   if in_int <=? 0 then Err e_not_positive else Ok in_int.
 
-(* applySwap: UpdatePoolAssetBalances(sdk.NewCoins(inAsset, outAsset)) - NewCoins drops a zero coin (that balance is then
-   left as it was) and panics on a negative one *)
+(* applySwap: the out asset may not drop to zero or below (sdk.NewCoins would silently drop a zero coin and leave the
+   old record: rejected since the repo's fix e9b34e9409); then UpdatePoolAssetBalances(sdk.NewCoins(inAsset, outAsset)) *)
 Definition b_apply_swap (p : bpool) (i j : nat) (a_in a_out : Z) : res bpool :=
   do ni <- int_check (nthZ (b_res p) i + a_in);
   do nj <- int_check (nthZ (b_res p) j - a_out);
-  if (ni <? 0) || (nj <? 0) then Err e_neg_coin else
-  let r1 := if ni =? 0 then b_res p else set_nth (b_res p) i ni in
-  let r2 := if nj =? 0 then r1 else set_nth r1 j nj in
-  Ok (mkB r2 (b_w p) (b_shares p)).
+  if nj <=? 0 then Err e_zero_balance else
+  if ni <? 0 then Err e_neg_coin else
+  let r1 := if ni =? 0 then b_res p else set_nth (b_res p) i ni in    (* NewCoins drops a zero coin *)
+  Ok (mkB (set_nth r1 j nj) (b_w p) (b_shares p)).
 
 Definition b_swap_out_given_in (p : bpool) (i j : nat) (a fee : Z) : res (Z * bpool) :=
   do out <- b_calc_out_given_in p i j a fee;
